@@ -379,6 +379,148 @@ func runUnaryStatus(o *hx.Out, r *hx.Rand, n int) {
 	}
 }
 
+// okCoded is a handler error whose status carries the OK code
+type okCoded struct{ msg string }
+
+func (e okCoded) Error() string              { return e.msg }
+func (e okCoded) GRPCStatus() *status.Status { return status.New(codes.OK, e.msg) }
+
+// runStreamStatus: a streaming handler sends k messages and then fails with a status of every code,
+// message class and number of details; the client must see exactly that status after exactly k messages.
+func runStreamStatus(o *hx.Out, r *hx.Rand, n int) {
+	type planT struct {
+		k      int
+		err    error
+		hd, tl metadata.MD
+	}
+	var mu sync.Mutex
+	plans := map[string]*planT{}
+	svc := &hx.Svc{Stream: func(kind string, ss grpc.ServerStream) error {
+		md, _ := metadata.FromIncomingContext(ss.Context())
+		mu.Lock()
+		pl := plans[md.Get("call-id")[0]]
+		mu.Unlock()
+		ss.SetHeader(pl.hd)
+		ss.SetTrailer(pl.tl)
+		if kind != "SS" {
+			for {
+				if err := ss.RecvMsg(&hx.Msg{}); err != nil {
+					break
+				}
+			}
+		} else {
+			ss.RecvMsg(&hx.Msg{})
+		}
+		for i := 0; i < pl.k; i++ {
+			ss.SendMsg(&hx.Msg{Count: int32(i + 1)})
+		}
+		return pl.err
+	}}
+	trs := bothTransports(svc)
+	defer func() {
+		for _, t := range trs {
+			t.stop()
+		}
+	}()
+	msgs := map[int64][]string{
+		0: {"plain message", "another one"}, 1: {""}, 2: {"a:b:c", ":leading", "100% sure", "%41"},
+		3: {"héllo wörld 世界"}, 4: {"line1\nline2", "cr\rhere", " leading space", "trailing space ", "tab\tinside\t"},
+		5: {"bad \xff\xfe utf8", "\xc3", "ok then \x80"},
+	}
+	kinds := []string{"SS", "BD", "CS"}
+	for i := 0; i < n; i++ {
+		for _, t := range trs {
+			http := t.name == "httpgrpc"
+			kind := kinds[r.Intn(3)]
+			k := r.Intn(3)
+			if kind == "CS" {
+				k = r.Intn(2)
+			}
+			code := int64(r.Range(1, 16))
+			if r.Chance(10) {
+				code = int64([]uint32{17, 99, 1 << 31, 1<<32 - 1}[r.Intn(4)])
+			}
+			cls := int64(r.Intn(6))
+			msg := msgs[cls][r.Intn(len(msgs[cls]))]
+			nd := r.Intn(4)
+			var details []proto.Message
+			var herr error
+			if r.Chance(8) {
+				cls, code, nd = 6, 0, 0
+				herr = okCoded{msg}
+			} else {
+				sp := status.New(codes.Code(uint32(code)), msg).Proto()
+				for d := 0; d < nd; d++ {
+					var m proto.Message = wrapperspb.String(fmt.Sprintf("detail %d", d))
+					if d%2 == 1 {
+						m = &hx.Msg{Count: int32(d), Payload: r.Bytes(5)}
+					}
+					details = append(details, m)
+					a, _ := anypb.New(m)
+					sp.Details = append(sp.Details, a)
+				}
+				herr = status.FromProto(sp).Err()
+			}
+			known := map[string]pairT{}
+			var hp, tp []pairT
+			for j := r.Intn(3); j > 0; j-- {
+				p := pairT{int64(r.Range(1, 3)), int64(r.Range(1, 150))}
+				hp = append(hp, p)
+				known[mdKeys[p.k]+"\x00"+mdValue(p.k, p.v)] = p
+			}
+			for j := r.Intn(3); j > 0; j-- {
+				p := pairT{int64(r.Range(1, 3)), int64(r.Range(1, 150))}
+				tp = append(tp, p)
+				known[mdKeys[p.k]+"\x00"+mdValue(p.k, p.v)] = p
+			}
+			id := fmt.Sprintf("ss-%s-%d", t.name, i)
+			mu.Lock()
+			plans[id] = &planT{k, herr, mdFromPairs(hp), mdFromPairs(tp)}
+			mu.Unlock()
+			ctx := metadata.AppendToOutgoingContext(context.Background(), "call-id", id)
+			got, gotMsgs, failed := status.New(codes.OK, ""), 0, false
+			var gh, gt metadata.MD
+			func() {
+				cs, err := t.ch.NewStream(ctx, hx.StreamDescOf(kind), "/verif.Svc/"+kind)
+				if err != nil {
+					got, failed = status.Convert(err), true
+					return
+				}
+				defer runtime.KeepAlive(cs)
+				cs.SendMsg(&hx.Msg{})
+				cs.CloseSend()
+				for {
+					err := cs.RecvMsg(&hx.Msg{})
+					if err == io.EOF {
+						break
+					}
+					if err != nil {
+						got, failed = status.Convert(err), true
+						break
+					}
+					gotMsgs++
+				}
+				gh, _ = cs.Header()
+				gt = cs.Trailer()
+			}()
+			wantMsg := strings.ToValidUTF8(msg, "\uFFFD")
+			msgSame := got.Message() == msg || got.Message() == wantMsg
+			detSame := len(got.Proto().GetDetails()) == nd
+			for d := 0; detSame && d < nd; d++ {
+				a, _ := anypb.New(details[d])
+				detSame = proto.Equal(a, got.Proto().Details[d])
+			}
+			hOK := pairsOf(gh, known) == pairsTermSorted(hp)
+			tOK := pairsOf(gt, known) == pairsTermSorted(tp)
+			kid := map[string]int{"SS": 1, "BD": 2, "CS": 3}[kind]
+			desc := map[string]interface{}{"transport": t.name, "kind": kind, "handler_sends": k, "code": code, "message": msg, "details": nd, "ok_coded_error": cls == 6,
+				"client_failed": failed, "client_code": uint32(got.Code()), "client_message": got.Message(), "client_messages": gotMsgs, "headers_ok": hOK, "trailers_ok": tOK}
+			o.Case("stream_status_"+t.name, fmt.Sprintf("StreamStatus %s %d %d %s %d %d %s %d %d %s %s %s %s", hx.B(http), kid, k, hx.Z(code), cls, nd, hx.B(failed), uint32(got.Code()), gotMsgs,
+				hx.B(msgSame), hx.B(detSame), hx.B(hOK), hx.B(tOK)), desc)
+		}
+	}
+}
+
 func pairsTermSorted(ps []pairT) string {
 	var s []string
 	for _, kid := range []int64{1, 2, 3} {
@@ -512,6 +654,7 @@ func init() {
 		}
 		runScripts(o, r, n, true)
 		runUnaryStatus(o, r, n)
+		runStreamStatus(o, r, n)
 		truncatedUnaryReplies(o)
 		ltsCases(o, r, profile{name: "status", rounds: [2]int{5, 14}, cancel: 10, handlerEnd: 60, headers: 20, kinds: []string{"BD", "SS", "CS"}, returnCodes: []int64{0, 5, 13, -1, 2, 14}}, n)
 		o.Finding = "finding_case"
@@ -525,6 +668,7 @@ func init() {
 		}
 		runScripts(o, r, n, true)
 		runUnaryStatus(o, r, n/2)
+		runStreamStatus(o, r, n/2)
 		o.Finding = "finding_c03"
 		o.Shard = 60
 	}
